@@ -915,6 +915,11 @@ func checkPropertiesClone(r *Run, gp *packages.Package) {
 				fresh[name] = true
 				return
 			}
+			// a helper of the package that returns a map it made itself (and never its parameter)
+			if fn := calleeOf(info, call); fn != nil && fn.Pkg() == gp.Types && returnsOwnMake(gp, fn) {
+				fresh[name] = true
+				return
+			}
 		}
 		if rs, ok := ast.Unparen(rhs).(*ast.SelectorExpr); ok && rs.Sel.Name == name {
 			aliased = name
@@ -1018,4 +1023,51 @@ func checkKindsNoParamAlias(r *Run, gp *packages.Package) {
 	if n == 0 {
 		r.Undecide("C12-R6: no Kinds-returning method with a slice parameter found in package graph")
 	}
+}
+
+// returnsOwnMake: every return of the function yields nil or a local that was assigned from make(…); none returns a
+// parameter.
+func returnsOwnMake(p *packages.Package, fn *types.Func) bool {
+	info := p.TypesInfo
+	fd := FuncDecls(p)[declKeyOf(fn.Origin())]
+	if fd == nil || fd.Body == nil {
+		return false
+	}
+	made := map[types.Object]bool{}
+	ast.Inspect(fd.Body, func(n ast.Node) bool {
+		if as, ok := n.(*ast.AssignStmt); ok && len(as.Lhs) == 1 && len(as.Rhs) == 1 {
+			if call, ok := ast.Unparen(as.Rhs[0]).(*ast.CallExpr); ok {
+				if id, ok := call.Fun.(*ast.Ident); ok && id.Name == "make" {
+					if lid, ok := as.Lhs[0].(*ast.Ident); ok {
+						if o := info.Defs[lid]; o != nil {
+							made[o] = true
+						}
+					}
+				}
+			}
+		}
+		return true
+	})
+	ok, any := true, false
+	ast.Inspect(fd.Body, func(n ast.Node) bool {
+		switch x := n.(type) {
+		case *ast.FuncLit:
+			return false
+		case *ast.ReturnStmt:
+			if len(x.Results) != 1 {
+				ok = false
+				return true
+			}
+			if isNilIdent(info, x.Results[0]) {
+				return true
+			}
+			if id, isID := ast.Unparen(x.Results[0]).(*ast.Ident); isID && made[info.Uses[id]] {
+				any = true
+				return true
+			}
+			ok = false
+		}
+		return true
+	})
+	return ok && any
 }
